@@ -241,6 +241,9 @@ type HarnessResult struct {
 	Merges      int               `json:"merges"`
 	Steps       int               `json:"ssa_steps"`
 	Replays     int               `json:"native_replays"`
+	Validated   int               `json:"witnesses_run_natively"`
+	ValidatedOK int               `json:"witnesses_agreeing"`
+	ValidationNotes []string      `json:"validation_notes,omitempty"`
 	FeasQ       int               `json:"feasibility_queries"`
 	Queries     int               `json:"solver_queries"`
 	SolverS     float64           `json:"solver_s"`
@@ -444,6 +447,12 @@ func runChild(prop, tier, only, resultPath string, seed int) {
 	if ncover == 0 && status == "ok" {
 		status = "inconclusive"
 		res.Msg = "vacuity: harness reached no cover point"
+	}
+	if len(res.ValidationNotes) > 0 && status == "ok" {
+		// the natively compiled harness fails an assertion (or panics) on an input for which the encoding claims
+		// that everything holds: the encoding cannot be trusted for this harness
+		status = "inconclusive"
+		res.Msg = "translator validation: " + res.ValidationNotes[0]
 	}
 	if len(res.Violations) > 0 {
 		status = "violation"
